@@ -25,6 +25,13 @@ impl<'a> BerDecoder<'a> for SnmpBool {
     }
 }
 
+#[cfg(gufo_snmp_verif)]
+impl SnmpBool {
+    pub fn verif_value(&self) -> bool {
+        self.0
+    }
+}
+
 impl From<SnmpBool> for bool {
     fn from(value: SnmpBool) -> Self {
         value.0
